@@ -92,8 +92,32 @@ pub fn pdesc(st: &State) -> Value {
 }
 
 /// Derived probes that turn storage dirt beyond `len` into data: grow with zeros, serialise,
-/// test for zero.  `what` names the probed vector: "ob" / "oq" (returned vectors) or "pb" (the subject).
-pub fn probe(v: &AnyBv, what: &str) -> Value {
+/// test for zero.  `w` names the probed vector: "ob" / "oq" (returned vectors) or "pb" (the subject).
+#[derive(Clone, Debug, PartialEq, Eq, Hash)]
+pub struct Probe {
+    pub w: &'static str,
+    pub g: Bits,
+    pub by: Vec<u8>,
+    pub z: u8,
+    pub ok: u8,
+}
+
+impl Probe {
+    pub fn to_json(&self) -> Value {
+        json!({"w": self.w, "g": self.g, "by": self.by, "z": self.z, "ok": self.ok})
+    }
+    /// normal form for grouping: the grown vector without its trailing zeros (the amount of growth
+    /// depends on the kind's capacity; clean storage gives the same normal form everywhere)
+    fn norm(&self, named: bool) -> (&'static str, Bits, Vec<u8>, u8, u8) {
+        let mut g = self.g.clone();
+        while g.last() == Some(&0) {
+            g.pop();
+        }
+        (if named { self.w } else { "" }, g, self.by.clone(), self.z, self.ok)
+    }
+}
+
+pub fn probe(v: &AnyBv, what: &'static str) -> Probe {
     let r = std::panic::catch_unwind(std::panic::AssertUnwindSafe(|| {
         let len = v.len();
         let room = v.kind().fixed_cap().map_or(70, |c| c.saturating_sub(len).min(70));
@@ -109,13 +133,13 @@ pub fn probe(v: &AnyBv, what: &str) -> Value {
             Out::Bool(b) => b as u8,
             _ => 2,
         };
-        json!({"w": what, "g": gb, "by": by, "z": z, "ok": (o1 == Out::Unit) as u8})
+        Probe { w: what, g: gb, by, z, ok: (o1 == Out::Unit) as u8 }
     }));
-    r.unwrap_or_else(|_| json!({"w": what, "g": [], "by": [], "z": 2, "ok": 0}))
+    r.unwrap_or(Probe { w: what, g: vec![], by: vec![], z: 2, ok: 0 })
 }
 
 /// probes of every vector a call returned, then of the subject itself
-pub fn probes(x: &AnyBv, o: &Out, stash: &[AnyBv]) -> Vec<Value> {
+pub fn probes_native(x: &AnyBv, o: &Out, stash: &[AnyBv]) -> Vec<Probe> {
     if matches!(o, Out::Panic | Out::ErrCap | Out::ErrFmt(_) | Out::ErrIo) {
         return vec![];
     }
@@ -127,26 +151,8 @@ pub fn probes(x: &AnyBv, o: &Out, stash: &[AnyBv]) -> Vec<Value> {
     out.push(probe(x, "pb"));
     out
 }
-
-/// Probes normalised for grouping: the grown vector without its trailing zeros (the amount of
-/// growth depends on the kind's capacity; clean storage gives the same normal form everywhere).
-fn probes_norm(pr: &[Value], result_only: bool) -> Value {
-    let norm = |p: &Value| -> Value {
-        let mut g: Vec<u64> = p["g"].as_array().map(|a| a.iter().map(|x| x.as_u64().unwrap_or(9)).collect()).unwrap_or_default();
-        while g.last() == Some(&0) {
-            g.pop();
-        }
-        json!([g, p["by"], p["z"], p["ok"]])
-    };
-    if result_only {
-        // value forms return the result ("ob"), assignment forms leave it in the subject ("pb")
-        match pr.first() {
-            Some(p) => norm(p),
-            None => json!(null),
-        }
-    } else {
-        json!(pr.iter().map(|p| json!([p["w"], norm(p)])).collect::<Vec<_>>())
-    }
+pub fn probes(x: &AnyBv, o: &Out, stash: &[AnyBv]) -> Vec<Value> {
+    probes_native(x, o, stash).iter().map(|p| p.to_json()).collect()
 }
 
 pub fn is_form_op(op: &str) -> bool {
@@ -163,8 +169,8 @@ pub struct Matrix {
     pub prep_fallbacks: u64,
     pub events: u64,
     /// executions per (subject kind) and per (operand kind or int type), for the evidence file
-    pub by_kind: HashMap<String, u64>,
-    pub by_op: HashMap<String, u64>,
+    pub by_kind: HashMap<&'static str, u64>,
+    pub by_op: HashMap<&'static str, u64>,
 }
 
 impl Matrix {
@@ -185,12 +191,14 @@ impl Matrix {
     pub fn run(&mut self, case: &Case) -> Vec<Value> {
         self.rot += 1;
         let rot = self.rot;
-        let mut groups: Vec<(String, Value, u64)> = Vec::new();
+        // (key, representative, count)
+        let mut groups: Vec<(ObsKey, Rep, u64)> = Vec::new();
         let xkinds: Vec<Kind> = match &case.xkinds {
             Some(k) => k.clone(),
             None => ALL_KINDS.to_vec(),
         };
         let ctor = is_ctor(case.op);
+        let form_op = is_form_op(case.op);
         for (xi, kx) in xkinds.iter().copied().enumerate() {
             if !ctor && !kx.admits(case.x.len()) {
                 continue;
@@ -218,78 +226,109 @@ impl Matrix {
                 }
                 _ => vec![(None, Prep::Fresh)],
             };
+            let (x0, okx) = make(kx, &case.x, prepx);
+            if !okx {
+                self.prep_fallbacks += 1;
+            }
+            let pre = observe(&x0);
             for (ky, prepy) in ys {
-                for f in case.forms.iter().copied() {
-                    let (mut x, okx) = make(kx, &case.x, prepx);
-                    if !okx {
-                        self.prep_fallbacks += 1;
+                let (yv0, oky) = match &case.y {
+                    YSpec::None | YSpec::Target(_) => (Y::None, true),
+                    YSpec::Int(t, v) => (Y::Int(*t, *v), true),
+                    YSpec::Bits(yb) => {
+                        let (yy, oky) = make(ky.unwrap(), yb, prepy);
+                        (Y::Vec(yy), oky)
                     }
-                    let prepx_name = if okx { prepx.name() } else { "fresh".to_string() };
-                    let (yv, yd) = match &case.y {
-                        YSpec::None => (Y::None, ydesc_none()),
-                        YSpec::Int(t, v) => (Y::Int(*t, *v), ydesc_int(*t, *v)),
-                        YSpec::Target(k) => (Y::None, ydesc_target(*k)),
-                        YSpec::Bits(yb) => {
-                            let (yy, oky) = make(ky.unwrap(), yb, prepy);
-                            if !oky {
-                                self.prep_fallbacks += 1;
-                            }
-                            let d = ydesc_vec(&yy, &if oky { prepy.name() } else { "fresh".to_string() });
-                            (Y::Vec(yy), d)
-                        }
-                    };
+                };
+                if !oky {
+                    self.prep_fallbacks += 1;
+                }
+                let ybits_before = yv0.bits();
+                for f in case.forms.iter().copied() {
+                    let mut x = x0.clone();
+                    let yv = yv0.clone();
                     let mut a = case.a.clone();
                     if let YSpec::Target(k) = &case.y {
                         a.tk = Some(*k);
                     }
-                    let pre = observe(&x);
-                    let ybits_before = yv.bits();
                     let o = exec(&mut x, &yv, case.op, f, &a);
                     let results = take_stash();
                     let post = observe(&x);
-                    let prv = probes(&x, &o, &results);
-                    let prn = probes_norm(&prv, is_form_op(case.op));
-                    let pr = json!(prv);
+                    let prv = probes_native(&x, &o, &results);
                     let py = yv.bits();
                     self.execs += 1;
-                    *self.by_kind.entry(kx.name().to_string()).or_insert(0) += 1;
-                    *self.by_op.entry(case.op.to_string()).or_insert(0) += 1;
+                    *self.by_kind.entry(kx.name()).or_insert(0) += 1;
+                    *self.by_op.entry(case.op).or_insert(0) += 1;
                     // normalised observation for grouping
                     let assign = f == "av" || f == "ar";
-                    let norm = if is_form_op(case.op) {
-                        let res = if assign {
-                            if o == Out::Unit { Out::Vec(post.bits.clone().unwrap_or_default()).to_json() } else { o.to_json() }
-                        } else {
-                            o.to_json()
-                        };
+                    let key = if form_op {
+                        let res = if assign && o == Out::Unit { Out::Vec(post.bits.clone().unwrap_or_default()) } else { o.clone() };
                         let x_ok = assign || post.bits == pre.bits;
-                        json!([res, x_ok, py == ybits_before, post.len <= post.cap, prn])
+                        ObsKey {
+                            cap: if case.capsens { Some((kx.class(), kx.fixed_cap())) } else { None },
+                            res,
+                            post: None,
+                            flags: (x_ok, py == ybits_before, post.len <= post.cap, 0),
+                            pr: prv.first().map(|p| vec![p.norm(false)]).unwrap_or_default(),
+                        }
                     } else {
-                        json!([o.to_json(), post.bits, py == ybits_before, post.len, post.len <= post.cap, prn])
+                        ObsKey {
+                            cap: if case.capsens { Some((kx.class(), kx.fixed_cap())) } else { None },
+                            res: o.clone(),
+                            post: Some(post.bits.clone()),
+                            flags: (true, py == ybits_before, post.len <= post.cap, post.len),
+                            pr: prv.iter().map(|p| p.norm(true)).collect(),
+                        }
                     };
-                    let capkey = if case.capsens { json!([kx.class(), kx.fixed_cap()]) } else { json!(null) };
-                    // by-value and by-reference flavours of a conversion are one abstract call
-                    let key = format!("{}|{}", capkey, norm);
                     if let Some(g) = groups.iter_mut().find(|g| g.0 == key) {
                         g.2 += 1;
                         continue;
                     }
-                    let ev = json!({
-                        "op": case.op, "f": f, "r": "s", "nb": 1, "cf": case.cf, "dbg": self.dbg as u8,
-                        "x": xdesc(&x, &pre, &prepx_name), "y": yd, "a": a.to_json(),
-                        "px": pdesc(&post), "py": py, "o": o.to_json(), "pr": pr,
-                    });
-                    groups.push((key, ev, 1));
+                    let prepx_name = if okx { prepx.name() } else { "fresh".to_string() };
+                    let yd = match &case.y {
+                        YSpec::None => ydesc_none(),
+                        YSpec::Int(t, v) => ydesc_int(*t, *v),
+                        YSpec::Target(k) => ydesc_target(*k),
+                        YSpec::Bits(_) => match &yv0 {
+                            Y::Vec(yy) => ydesc_vec(yy, &if oky { prepy.name() } else { "fresh".to_string() }),
+                            _ => ydesc_none(),
+                        },
+                    };
+                    let rep = Rep { f, x: xdesc(&x0, &pre, &prepx_name), y: yd, a: a.to_json(), px: pdesc(&post), py, o: o.to_json(),
+                                    pr: json!(prv.iter().map(|p| p.to_json()).collect::<Vec<_>>()) };
+                    groups.push((key, rep, 1));
                 }
             }
         }
         self.events += groups.len() as u64;
         groups
             .into_iter()
-            .map(|(_, mut ev, n)| {
-                ev["cov"] = json!(n);
-                ev
+            .map(|(_, r, n)| {
+                json!({
+                    "op": case.op, "f": r.f, "r": "s", "nb": 1, "cf": case.cf, "dbg": self.dbg as u8,
+                    "x": r.x, "y": r.y, "a": r.a, "px": r.px, "py": r.py, "o": r.o, "pr": r.pr, "cov": n,
+                })
             })
             .collect()
     }
+}
+
+#[derive(PartialEq, Eq)]
+struct ObsKey {
+    cap: Option<(&'static str, Option<usize>)>,
+    res: Out,
+    post: Option<Option<Bits>>,
+    flags: (bool, bool, bool, usize),
+    pr: Vec<(&'static str, Bits, Vec<u8>, u8, u8)>,
+}
+
+struct Rep {
+    f: &'static str,
+    x: Value,
+    y: Value,
+    a: Value,
+    px: Value,
+    py: Bits,
+    o: Value,
+    pr: Value,
 }
